@@ -154,6 +154,12 @@ func cmdCheck(prop, tier string, keep bool) int {
 			fmt.Printf("VIOLATION property=%s replay=%s obligation=%s (%s) no-failing-input-found\n", prop, rp, r.Name, u)
 		}
 	}
+	ownerSeen := map[string]bool{}
+	for n := range seen {
+		if k := oblSep(n); k >= 0 {
+			ownerSeen[n[:k]] = true
+		}
+	}
 	for _, n := range baselineNames {
 		if !seen[n] {
 			owner := n
@@ -162,6 +168,12 @@ func cmdCheck(prop, tier string, keep bool) int {
 			}
 			if undecidedFuncs[owner] {
 				undecided = append(undecided, n+"/exists")
+				continue
+			}
+			if k := oblSep(n); k >= 0 && strings.HasPrefix(n[k+1:], "safety:") && ownerSeen[owner] {
+				// the function is still analysed and no longer performs the operation (dereference,
+				// index, division ...) this safety obligation guarded: nothing is left to prove
+				fmt.Printf("NOTE: %s is no longer generated (the guarded operation was removed from %s)\n", n, owner)
 				continue
 			}
 			if lenient(n) {
